@@ -1,4 +1,5 @@
 import D2P.Model.Output
+import D2P.Check.C01
 import D2P.Proofs.ShapeWalk
 /-!
 # C01 — paragraphs sit at depth 4 in every view, for every document
@@ -11,36 +12,6 @@ The theorems below hold for **every** input tree: there is no scope restriction.
 -/
 namespace D2P
 
-/-! ## shapes of the returned string views -/
-
-mutual
-/-- `tshape n t`: `t` is `n` list levels above string leaves -/
-def tshape : Nat → Tree → Bool
-  | 0, .leaf _ => true
-  | n+1, .node xs => tshapeL n xs
-  | _, _ => false
-def tshapeL : Nat → List Tree → Bool
-  | _, [] => true
-  | n, x :: xs => tshape n x && tshapeL n xs
-end
-
-/-- nesting skeleton with the items at paragraph level erased -/
-inductive Skel where
-  | tip
-  | node (items : List Skel)
-  deriving Repr
-
-mutual
-def Skel.beq : Skel → Skel → Bool
-  | .tip, .tip => true
-  | .node xs, .node ys => Skel.beqL xs ys
-  | _, _ => false
-def Skel.beqL : List Skel → List Skel → Bool
-  | [], [] => true
-  | x :: xs, y :: ys => Skel.beq x y && Skel.beqL xs ys
-  | _, _ => false
-end
-
 mutual
 theorem Skel.beq_refl : (a : Skel) → Skel.beq a a = true
   | .tip => by simp [Skel.beq]
@@ -48,26 +19,6 @@ theorem Skel.beq_refl : (a : Skel) → Skel.beq a a = true
 theorem Skel.beqL_refl : (xs : List Skel) → Skel.beqL xs xs = true
   | [] => by simp [Skel.beqL]
   | x :: xs => by simp only [Skel.beqL, Bool.and_eq_true]; exact ⟨Skel.beq_refl x, Skel.beqL_refl xs⟩
-end
-
-mutual
-def skelNest : Nest → Skel
-  | .par _ => .tip
-  | .list xs => .node (skelNestL xs)
-def skelNestL : List Nest → List Skel
-  | [] => []
-  | x :: xs => skelNest x :: skelNestL xs
-end
-
-mutual
-/-- skeleton of a string view whose paragraphs are `k` levels down (`k = 0`: this node is the paragraph) -/
-def skelTree : Nat → Tree → Skel
-  | 0, _ => .tip
-  | _+1, .leaf _ => .tip
-  | k+1, .node xs => .node (skelTreeL k xs)
-def skelTreeL : Nat → List Tree → List Skel
-  | _, [] => []
-  | k, x :: xs => skelTree k x :: skelTreeL k xs
 end
 
 /-! ## `get_par_strings` and `_join_runs` preserve the skeleton -/
@@ -262,18 +213,6 @@ theorem C01_views (root : List Nest) (runs plain : List Tree) (hs : Shape4 root)
   have a := getParStrings_spec root runs hs hr
   have b := joinRuns_spec runs plain a.1 hp
   exact ⟨a.1, b.1, a.2, by rw [b.2, a.2]⟩
-
-/-! ## the decidable checker evaluated on the implementation's output -/
-
-/-- what the harness reports for one attribute triple (after encoding the live objects) -/
-structure C01Obs where
-  pars : List Nest
-  runs : List Tree
-  plain : List Tree
-
-def checkC01 (v : C01Obs) : Bool :=
-  wfL 3 v.pars && tshapeL 4 v.runs && tshapeL 3 v.plain &&
-  Skel.beqL (skelTreeL 3 v.runs) (skelNestL v.pars) && Skel.beqL (skelTreeL 3 v.plain) (skelNestL v.pars)
 
 /-- the model passes its own checker whenever it returns the three views -/
 theorem C01_check (root : List Nest) (runs plain : List Tree) (hs : Shape4 root)
